@@ -534,6 +534,23 @@ def io_case(out, fail, t, rng, scratch, fileno):
             if Fraction(float(nd.TipDistance)) != hs[p]:
                 fail(out, "set_tip_distances: TipDistance is not the distance to the farthest tip below", dict(inp0, node=list(p)), str(hs[p]), float(nd.TipDistance), "set_tip_distances")
                 break
+        # midpoint rooting: the two farthest tips are equidistant from the new root
+        out["evaluations"] += 1
+        mr = real.root_at_midpoint()
+        mn = U.real_nested(mr)
+        maxd, (f1, f2) = real.max_tip_tip_distance()
+
+        def root_depth(x, name, acc=Fraction(0)):
+            for c in x[2]:
+                if name in U.n_tips(c):
+                    return root_depth(c, name, acc + c[1]) if c[2] else acc + c[1]
+            return acc
+
+        dd = (root_depth(mn, f1), root_depth(mn, f2))
+        if dd[0] != dd[1] or dd[0] * 2 != Fraction(float(maxd)):
+            fail(out, "root_at_midpoint: the two farthest tips are not equidistant from the new root", dict(inp0, pair=[f1, f2]), str(Fraction(float(maxd)) / 2), [str(dd[0]), str(dd[1])], "midpoint-equidistant")
+        else:
+            bump(out, "io_route", "midpoint-equidistant:ok")
         priv = real.deepcopy()
         priv.scale_branch_lengths()
         _compare(out, fail, "scale_branch_lengths", dict(inp0, route="scale_branch_lengths"), nested, priv, tips, dists=False)
